@@ -19,6 +19,12 @@ import (
 	"github.com/coreruleset/crs-toolchain/v2/utils"
 )
 
+// The class `regexp/syntax` generates for `\s`, optionally followed by the rest of a range
+// that starts at the class's last character, the space.
+const perlSpaceClass = `\t\n\f\r `
+
+var perlSpaceClassRegexp = regexp.MustCompile(`\\t\\n\\f\\r (?:-[^\]])?`)
+
 // Create the processor stack
 var processorStack ProcessorStack
 var processor processors.IProcessor
@@ -221,7 +227,14 @@ func (a *Operator) useHexBackslashes(input string) string {
 // to be interpreted as a literal.
 func (a *Operator) includeVerticalTabInSpaceClass(input string) string {
 	logger.Trace().Msg("Fixing up regex to include vertical tab (VT) in white space class matches")
-	return strings.ReplaceAll(input, `\t\n\f\r `, `\s\x0b`)
+	// The space that ends the generated class can be the start of a range (`[\t\n\f\r -/]`).
+	// It must then be kept, otherwise the range would start at the vertical tab.
+	return perlSpaceClassRegexp.ReplaceAllStringFunc(input, func(match string) string {
+		if len(match) > len(perlSpaceClass) {
+			return `\s\x0b ` + match[len(perlSpaceClass):]
+		}
+		return `\s\x0b`
+	})
 }
 
 // rassemble-go doesn't provide an option to specify literals.
